@@ -21,7 +21,7 @@ RoutesOf(f, p) ==
     [] f = "Noh2" -> {"Noh2=Noh2Cog", "Noh2=Cog1", "wrapper"}
     [] f = "Sedov" -> {"wrapper"}
     [] f \in CogNone \cup CogDiv \cup CogFull \cup CogShock -> IF "geometry" \in DOMAIN p THEN {"wrapper"} ELSE {}
-    [] f = "Rod1D" -> {"Rod=Sandwich"} \cup (IF p.bc = "BC3" THEN {"RodBC3=mirrorBC4"} ELSE {})
+    [] f \in {"Rod1D", "RodNH"} -> (IF p.bc \in {"BC1", "BC2", "BC3"} THEN {"Rod=Sandwich"} ELSE {}) \cup (IF p.bc = "BC3" THEN {"RodBC3=mirrorBC4"} ELSE {})
     [] f \in {"Kenamond1", "Kenamond2", "Kenamond3"} -> IF p.geometry = 2 THEN {"2D=3D"} ELSE {}
     [] f = "RiemannIG" -> {"IGEOS=GenEOS"}
     [] OTHER -> {}
